@@ -66,7 +66,7 @@ def obligations(tier):
     obls += [
         CH("dictionary_keys_and_emptiness", H, "dict_prop", t, mode="E1s", functions=FP[7:10], bounds="12 keys x 2 versions x empty/non-empty x Dictionary/Hashes/Extensions"),
         CH("binary_property", H, "binary_prop", t, mode="E1s", functions=FP[10:11], bounds="12 base64 / non-base64 literals"),
-        CH("reference_property", H, "ref_prop", t, mode="E1s", functions=FP[12:13],            bounds="12 type names x 7 white/black-list configurations x allow_custom"),
+        CH("reference_property", H, "ref_prop", t, mode="E1s", functions=FP[12:13],            bounds="12 type names (two registered for 2.1 only) x 7 white/black-list configurations x allow_custom x both spec versions"),
         CH("reference_text_malformed", H, "ref_text", t, mode="E1s", functions=FP[12:13] + ["stix2.properties._validate_id", "stix2.utils.get_type_from_id"],
            bounds="4 type names x 7 configurations x 9 insertions between type and UUID (extra '--' segments, spaces) x 5 tails x both versions x allow_custom: never accepted"),
     ] + [
